@@ -49,7 +49,7 @@ Common(f, rs) ==
   \cup (IF Full /\ f \notin {"TEK", "C"} THEN {[BaseO EXCEPT !.l = l, !.e = e] : l \in LineLens, e \in {-1, 4660}} ELSE {})
 
 PerFmt(f, o, rs) ==
-  CASE f = "MOTO" -> IF Full THEN {[o EXCEPT !.M = M, !.rec5 = r5, !.sep = sp] : M \in 1..3, r5 \in BOOLEAN, sp \in BOOLEAN}
+  CASE f = "MOTO" -> IF Full THEN {[o EXCEPT !.M = M, !.rec5 = r5] : M \in 1..3, r5 \in BOOLEAN} \cup {[o EXCEPT !.sep = TRUE]}
                      ELSE {[o EXCEPT !.M = M] : M \in 1..3} \cup {[o EXCEPT !.rec5 = FALSE]}
     [] f = "INTEL" -> IF Full THEN {[o EXCEPT !.i = i, !.m = m] : i \in 0..2, m \in (IF rs[1].gran = 2 THEN 0..3 ELSE {0})}
                       ELSE {[o EXCEPT !.i = i] : i \in 0..2} \cup {[o EXCEPT !.m = m] : m \in (IF rs[1].gran = 2 THEN 0..3 ELSE {0})}
@@ -98,7 +98,7 @@ InvDecodeEquiv == pc = "done" /\ Representable(c, Fmt) =>
 \* the action-by-action machine and the functional composition Emit agree
 InvEmit == pc = "done" => st.out = Emit(c, Devs)
 \* no line carries more data than -l allows (as the code rounds it) and no Intel line leaves its 64K bank / segment
-InvLineLen == pc = "done" => MaxLineData(Fmt, st.out) <= EffLineLen(c.o)
+InvLineLen == pc = "done" => MaxLineData(Fmt, st.out) <= Max2(EffLineLen(c.o), TheGran(c))      \* at least one address unit
 \* every data line carries whole address units (needs the repaired line splitting)
 InvWholeUnits == \A i \in 1..Len(st.out) : LineData(Fmt, st.out[i]) % TheGran(c) = 0 \/ (c.o.m >= 2)
 InvBank == \A i \in 1..Len(st.out) :
